@@ -1,0 +1,103 @@
+//go:build verif
+
+package tls
+
+import (
+	"crypto/mlkem"
+	"errors"
+)
+
+// Exports for the completeness / agreement / key-share checks (work package neg2).
+// Read-only accessors plus the body of the server-side KyberDraftTLS13 hook; no client code
+// path is touched.
+
+// VerifRawEKM calls the connection's keying-material exporter directly, below the policy of
+// ConnectionState.ExportKeyingMaterial (which refuses when renegotiation is enabled or, before
+// TLS 1.3, when the extended master secret was not negotiated). ok is false when the
+// handshake installed no exporter.
+func VerifRawEKM(c *Conn, label string, context []byte, length int) (out []byte, ok bool, err error) {
+	c.handshakeMutex.Lock()
+	ekm := c.ekm
+	c.handshakeMutex.Unlock()
+	if ekm == nil {
+		return nil, false, nil
+	}
+	out, err = ekm(label, context, length)
+	return out, true, err
+}
+
+// VerifConnFacts returns the inputs of the exporter-availability policy of a connection:
+// Config.Renegotiation of its own config and whether the extended master secret was negotiated.
+func VerifConnFacts(c *Conn) (renegotiation RenegotiationSupport, extMasterSecret bool) {
+	c.handshakeMutex.Lock()
+	defer c.handshakeMutex.Unlock()
+	return c.config.Renegotiation, c.extMasterSecret
+}
+
+// VerifUQUICBuild builds the ClientHello of a QUIC client connection (BuildHandshakeState on
+// its UConn) and returns the marshalled handshake message.
+func VerifUQUICBuild(q *UQUICConn) ([]byte, error) {
+	if err := q.conn.BuildHandshakeState(); err != nil {
+		return nil, err
+	}
+	return append([]byte(nil), q.conn.HandshakeState.Hello.Raw...), nil
+}
+
+// (VerifUQUICUConn is defined in zz_verif_hello.go.)
+
+// VerifGenerateKeyShare runs the key generation ApplyPreset uses for a classical group and
+// returns the public key it would put into the key share (error for groups it cannot generate).
+func VerifGenerateKeyShare(group CurveID) ([]byte, error) {
+	k, err := generateECDHEKey(defaultConfig().rand(), group)
+	if err != nil {
+		return nil, err
+	}
+	return k.PublicKey().Bytes(), nil
+}
+
+// verifKyberDraftKeyExchange is the body of the KyberDraftTLS13 server hook: if the first
+// ClientHello carries an X25519Kyber768Draft00 key share, redo the key exchange on it
+// (X25519 ECDH || Kyber768 round-3 shared secret; server share = X25519 public key || ciphertext)
+// in place of the group the server selected itself.
+func verifKyberDraftKeyExchange(hs *serverHandshakeStateTLS13) error {
+	c := hs.c
+	var share *keyShare
+	for i := range hs.clientHello.keyShares {
+		if hs.clientHello.keyShares[i].group == X25519Kyber768Draft00 {
+			share = &hs.clientHello.keyShares[i]
+			break
+		}
+	}
+	if share == nil {
+		return nil
+	}
+	if len(share.data) != x25519PublicKeySize+mlkem.EncapsulationKeySize768 {
+		c.sendAlert(alertIllegalParameter)
+		return errors.New("tls: invalid X25519Kyber768Draft00 client key share")
+	}
+	key, err := generateECDHEKey(c.config.rand(), X25519)
+	if err != nil {
+		c.sendAlert(alertInternalError)
+		return err
+	}
+	peerKey, err := key.Curve().NewPublicKey(share.data[:x25519PublicKeySize])
+	if err != nil {
+		c.sendAlert(alertIllegalParameter)
+		return errors.New("tls: invalid client key share")
+	}
+	x25519Shared, err := key.ECDH(peerKey)
+	if err != nil {
+		c.sendAlert(alertIllegalParameter)
+		return errors.New("tls: invalid client key share")
+	}
+	ek, err := mlkem.NewEncapsulationKey768(share.data[x25519PublicKeySize:])
+	if err != nil {
+		c.sendAlert(alertIllegalParameter)
+		return errors.New("tls: invalid X25519Kyber768Draft00 client key share")
+	}
+	k, ciphertext := ek.Encapsulate()
+	hs.sharedKey = append(x25519Shared, kyberSharedSecret(ciphertext, k)...)
+	hs.hello.serverShare = keyShare{group: X25519Kyber768Draft00, data: append(key.PublicKey().Bytes(), ciphertext...)}
+	c.curveID = X25519Kyber768Draft00
+	return nil
+}
